@@ -17,7 +17,7 @@ struct UField {
     expr: Option<(&'static str, &'static str)>,
 }
 
-const UFIELDS: [UField; 15] = [
+const UFIELDS: [UField; 17] = [
     UField { ty: "u8", size: 1, align: 1, default: true, expr: Some(("7", "7u8")) },
     UField { ty: "[u8; 3]", size: 3, align: 1, default: true, expr: None },
     UField { ty: "u16", size: 2, align: 2, default: true, expr: Some(("b'x'", "120u16")) },
@@ -30,12 +30,15 @@ const UFIELDS: [UField; 15] = [
     UField { ty: "i8", size: 1, align: 1, default: true, expr: Some(("-1", "-1i8")) },
     UField { ty: "u64", size: 8, align: 8, default: true, expr: Some(("0 + 1", "1u64")) },
     UField { ty: "[u8; 5]", size: 5, align: 1, default: true, expr: None },
+    // field types without a Default impl: designated for Default only together with an expression
+    UField { ty: "[u8; 40]", size: 40, align: 1, default: false, expr: Some(("crate::prelude::ARR40", "[7u8; 40]")) },
+    UField { ty: "*const u8", size: 8, align: 8, default: false, expr: Some(("::core::ptr::null()", "::core::ptr::null::<u8>()")) },
     // zero-sized fields: a union made only of these has no bytes at all
     UField { ty: "()", size: 0, align: 1, default: true, expr: None },
     UField { ty: "[u8; 0]", size: 0, align: 1, default: true, expr: None },
     UField { ty: "[u32; 0]", size: 0, align: 4, default: true, expr: None },
 ];
-const FIRST_ZST: usize = 12;
+const FIRST_ZST: usize = 14;
 
 pub struct UCase {
     pub def: String,
@@ -148,7 +151,8 @@ pub fn build(dna: &[u16]) -> UCase {
     }
     let default_pos = d.pick(idx.len());
     let has_default = has_default && !(md && UFIELDS[idx[default_pos]].ty == "u32");
-    let default_expr = has_default && UFIELDS[idx[default_pos]].expr.is_some() && !(generic && UFIELDS[idx[default_pos]].ty == "u32") && d.chance(50);
+    let needs_expr = !UFIELDS[idx[default_pos]].default;
+    let default_expr = has_default && UFIELDS[idx[default_pos]].expr.is_some() && !(generic && UFIELDS[idx[default_pos]].ty == "u32") && (d.chance(50) || needs_expr);
     if has_default {
         attrs.push(if d.chance(30) { "Default(new)".into() } else { "Default".into() });
     }
